@@ -1,6 +1,7 @@
 import ScenicModel.Props.C04Tree
 import ScenicModel.Props.C04Planar
 import ScenicModel.Props.C04Geo
+import ScenicModel.Props.C04Surf
 import ScenicModel.Gen.Solid
 
 /-!
@@ -317,5 +318,79 @@ example : circumradiusSq fallbackCenter .fallback (5, 0, 0) [(6, 1, 1), (4, -1, 
 
 example : CircGeom rotZ (5, 0, 0) [(4, 1, 1)] (.scaled [(1, 1, 1)]) :=
   .scaled _ (by simp [rigid, rotZ, Mat3.mulVec, V3.dot, V3.add]; norm_num)
+
+/-! ## round 4: volume against surface / footprint (slab cache) / region in region, on the generated data -/
+
+theorem gen_surf_sound : surfCfg.Sound where
+  p1Ret := by simp [surfCfg]
+  p2Ret := by simp [surfCfg]
+  p3Negate := by simp [surfCfg]
+
+theorem gen_slab_sound : slabCfg.Sound where
+  heightNonneg := by intro lo hi h; simp only [slabCfg]; linarith
+  covers := by intro lo hi h; simp only [slabCfg]; constructor <;> linarith
+  cache := by
+    intro pc ph cz h hit
+    have hit' : decide (cz + h / 2 < pc + ph / 2) = true ∧ decide (pc - ph / 2 < cz - h / 2) = true := by
+      simpa [slabCfg, Cmp.eval, Conn.eval] using hit
+    simp only [decide_eq_true_eq] at hit'
+    constructor <;> linarith [hit'.1, hit'.2]
+  padded := by
+    intro cz h hh
+    simp only [slabCfg, maxR]
+    split <;> nlinarith
+
+theorem gen_inner_sound : innerCfg.Sound where
+  swapped := by simp [innerCfg]
+  negate := by simp [innerCfg]
+
+/-- `MeshVolumeRegion.intersects(MeshSurfaceRegion)` as written in `/repo`: every exit returns the ground truth -/
+theorem intersectsSurface_correct {β : Type*} {A S : Set β} {v0 : β} {o : SurfObs} (h : SurfContract A S v0 o) :
+    (intersectsSurface surfCfg o).1 = true ↔ (A ∩ S).Nonempty :=
+  Solid.intersectsSurface_correct _ gen_surf_sound h
+
+/-- the slab that `approxBoundFootprint` as written in `/repo` hands back covers the mesh, for **every** history of
+queries against the footprint and every initial cache -/
+theorem slabHistory_covers (qs : List (Rat × Rat)) (cache : Option (Rat × Rat)) (h : ∀ q ∈ qs, q.1 ≤ q.2) :
+    List.Forall₂ (fun q s => slabLo s ≤ q.1 ∧ q.2 ≤ slabHi s) qs (slabHistory slabCfg cache qs) :=
+  Solid.slabHistory_covers _ gen_slab_sound qs cache h
+
+/-- `MeshVolumeRegion.intersects(PolygonalFootprintRegion)` as written in `/repo`: cutting the footprint to the
+(possibly cached) slab does not change the answer -/
+theorem intersectsFootprint_correct {α : Type*} (cache : Option (Rat × Rat)) (lo hi : Rat) (hlh : lo ≤ hi)
+    {A : Set (α × ℝ)} {F : Set α} (hA : ∀ x ∈ A, ((lo : Rat) : ℝ) ≤ x.2 ∧ x.2 ≤ ((hi : Rat) : ℝ)) (ans : Bool)
+    (hans : ans = true ↔ (A ∩ slabPrism F (footprintSlab slabCfg cache lo hi).1).Nonempty) :
+    ans = true ↔ (A ∩ cylinder F).Nonempty :=
+  Solid.intersectsFootprint_correct _ gen_slab_sound cache lo hi hlh hA ans hans
+
+/-- `MeshVolumeRegion.containsRegionInner(MeshVolumeRegion)` as written in `/repo` -/
+theorem containsRegionInner_correct {β : Type*} {A B : Set β} (e1 e2 : Bool) (h1 : e1 = true ↔ B \ A = ∅) :
+    containsRegionInner innerCfg e1 e2 = true ↔ B ⊆ A :=
+  Solid.containsRegionInner_correct _ gen_inner_sound e1 e2 h1
+
+/-- a surface (the two end points of `[2,3]`) strictly inside the volume `[0,5]` of the real line: no collision,
+    answered by PASS 3 through the first vertex -/
+example : SurfContract (Set.Icc (0 : ℝ) 5) ({2, 3} : Set ℝ) 2 { bbOverlap := true, collide := false, hasFirst := true } where
+  bbox := by simp
+  collideSound := by simp
+  allOrNone := fun _ => Or.inl (by intro x hx; rcases hx with rfl | rfl <;> constructor <;> norm_num)
+  first := by simp
+  hasFirst := by simp; norm_num
+
+example : intersectsSurface surfCfg { bbOverlap := true, collide := false, hasFirst := true } = (true, .p3) := by
+  simp [intersectsSurface, surfCfg]
+
+/-- a history: a mesh at heights [0,1] (slab [-99.5, 100.5] is built and cached), one at [3,4] (cache re-used),
+    one at [150,151] (not covered: rebuilt) -/
+example : slabHistory slabCfg none [(0, 1), (3, 4), (150, 151)] =
+    [(1 / 2, 200), (1 / 2, 200), (301 / 2, 30100)] := by
+  simp [slabHistory, footprintSlab, approxBound, slabCfg, Cmp.eval, Conn.eval, maxR] <;> norm_num
+
+example : (footprintSlab slabCfg (some (1 / 2, 200)) 3 4).2.2 = true := by
+  simp [footprintSlab, approxBound, slabCfg, Cmp.eval, Conn.eval] <;> norm_num
+
+example : containsRegionInner innerCfg true false = true := by simp [containsRegionInner, innerCfg]
+example : (true = true ↔ (Set.Icc (1 : ℝ) 2) \ (Set.Icc (0 : ℝ) 5) = ∅) := by
+  simp only [true_iff, Set.diff_eq_empty]; exact Set.Icc_subset_Icc (by norm_num) (by norm_num)
 
 end Scenic.C04
